@@ -13,6 +13,7 @@ import Driver.Util
 import LlgVerif.Model.IntRange
 import LlgVerif.Spec.Cfg
 import LlgVerif.Model.Numeric
+import LlgVerif.Model.Inline
 open LlgVerif Drv
 
 def wordsOf (l : List Nat) : List Word := l.map (fun n => BitVec.ofNat 32 n)
@@ -415,6 +416,9 @@ def parseCfgRule? (s : String) : Option (Nat × List (Cfg.Sym Nat)) :=
       pure (l, syms)
   | _ => none
 
+def parseCfgRules? (s : String) : Option (List (Nat × List (Cfg.Sym Nat))) :=
+  if s = "-" then some [] else (s.splitOn ";").mapM parseCfgRule?
+
 def prefixesOf (w : List UInt8) : List (List UInt8) :=
   (List.range (w.length + 1)).map (fun k => w.take k)
 
@@ -427,6 +431,14 @@ def handleCfg (st : St) (args : List String) : St × String :=
       if Cfg.allProductive rs then
         ({ st with cfgs := (id, (rs, start)) :: st.cfgs.filter (·.1 ≠ id) }, s!"ok {rs.length}")
       else (st, "unproductive")
+    | _, _, _ => (st, "bad-op")
+  | ["acc", start, rules, w] =>
+    -- accept bits of every prefix of w for an arbitrary (possibly unproductive) grammar
+    match parseNat? start, parseCfgRules? rules, parseHex? (if w = "-" then "" else w) with
+    | some s, some g, some w =>
+      match Cfg.chart? g [[Cfg.Sym.nt s]] w 400 with
+      | some c => (st, "ok " ++ String.join ((prefixesOf w).map (fun p => showBool (c.contains ([Cfg.Sym.nt s], p)))))
+      | none => (st, "fuel")
     | _, _, _ => (st, "bad-op")
   | ["q", id, w] =>
     match parseNat? id, parseHex? (if w = "-" then "" else w) with
@@ -441,6 +453,24 @@ def handleCfg (st : St) (args : List String) : St × String :=
       | none => (st, "bad-op")
     | _, _ => (st, "bad-op")
   | _ => (st, "bad-op")
+
+def parseRk? (s : String) : Option (List (Nat × Nat)) :=
+  if s = "-" then some [] else (s.splitOn ";").mapM (fun e =>
+    match e.splitOn "=" with
+    | [a, b] => do pure (← a.toNat?, ← b.toNat?)
+    | _ => none)
+
+/-- `opt check <G> <G'> <R> <rk> <protected>`: the inlining certificate check of M9 -/
+def handleOpt (args : List String) : String :=
+  match args with
+  | ["check", g, g', r, rk, prot] =>
+    match parseCfgRules? g, parseCfgRules? g', parseCfgRules? r, parseRk? rk,
+        (if prot = "-" then some [] else parseNatList? prot) with
+    | some g, some g', some r, some rk, some prot =>
+      let rkf := fun a => ((rk.find? (·.1 = a)).map (·.2)).getD 0
+      if Cfg.checkInline g g' r rkf prot then "ok" else "reject"
+    | _, _, _, _, _ => "bad-op"
+  | _ => "bad-op"
 
 def parseOptInt? (s : String) : Option (Option Int) :=
   if s = "none" then some none
@@ -535,6 +565,7 @@ def step (st : St) (line : String) : St × String :=
   | "ranges" :: args => (st, handleRanges args)
   | "num" :: args => (st, handleNum args)
   | "cfg" :: args => handleCfg st args
+  | "opt" :: args => (st, handleOpt args)
   | "rb" :: args => handleRb st args
   | ["reset"] => ({}, "ok")
   | _ => (st, "bad-op")
